@@ -336,6 +336,28 @@ func runC18(c *report.Ctx) {
 					return cc != nil && cc.IsInvoke() && cc.Method.Name() == name
 				}
 			}
+			// a transaction is ended once: the driver's Commit releases the writer lock whether the write succeeded or
+			// not, and so does Rollback — a Rollback after a (failed) Commit unlocks a mutex that is not held, or one a
+			// queued writer has just taken
+			for _, g := range withLiterals(upd) {
+				an.Instrs(g, func(in ssa.Instruction) {
+					if !isInvokeNamed("Commit")(in) {
+						return
+					}
+					idx := 0
+					for k, x := range in.Block().Instrs {
+						if x == in {
+							idx = k + 1
+						}
+					}
+					se := &an.Search{P: p, Fn: g, GoalInstr: isInvokeNamed("Rollback")}
+					if w := se.Run(in.Block(), idx, nil); w != nil {
+						c.Fail(sk(upd)+":Commit=>no-Rollback", "Rollback can follow Commit on the same transaction: the LevelDB driver's Commit has already released the writer mutex when the write fails, Rollback releases it again — `fatal error: sync: unlock of unlocked mutex`, or the lock of the next writer is freed and two transactions share the package-level batch", posOf(c, in), w...)
+					} else {
+						c.OK(sk(upd)+":Commit=>no-Rollback", "no Rollback after Commit", posOf(c, in))
+					}
+				})
+			}
 			if errBlk == nil || okBlk == nil {
 				c.Fail(sk(upd)+":branches", "the closure's error is not branched on", posOf(c, fcall))
 			} else {
@@ -624,6 +646,8 @@ func runC18(c *report.Ctx) {
 	ruleNextIndexFromTx(c)
 	ruleFailedBatchNotFinished(c)
 	ruleSoleWriter(c)
+	ruleHandleStateFollowsCommit(c)
+	ruleAccountBucketCreatedExclusively(c)
 	_ = sort.Strings
 	ruleNoMemoryTipUnderUpdate(c, true)
 	ruleImportRetryOverride(c)
